@@ -304,6 +304,26 @@ func cmdCheck(prop, tier string, rest []string) int {
 					// the real process is run under the system-call tracer with the
 					// same failures forced, and must reach the same witnesses
 					rr, okk, why := replayFS(all, hs.h.PkgRel, pth, sp.FSPlan)
+					// forcing the n-th call of a kind to fail relies on the real process
+					// making the same calls in the trace pass and in the injection pass;
+					// the Go runtime occasionally adds one (a stat, an open) and the
+					// failure lands on the wrong call. A mismatch is therefore repeated:
+					// only one that shows every time counts.
+					first := fmt.Sprintf("%s|%s|%v", rr.Outcome, rr.Detail, rr.Reached)
+					stable := true
+					for attempt := 0; attempt < 2 && okk && (rr.Outcome != "ok" || !sameSet(rr.Reached, sp.Reached)); attempt++ {
+						ev.fsSampleRetries++
+						rr, okk, why = replayFS(all, hs.h.PkgRel, pth, sp.FSPlan)
+						if okk && fmt.Sprintf("%s|%s|%v", rr.Outcome, rr.Detail, rr.Reached) != first {
+							stable = false
+						}
+					}
+					if okk && !stable && (rr.Outcome != "ok" || !sameSet(rr.Reached, sp.Reached)) {
+						// three traced runs of the same tape disagreed with each other:
+						// the injection is not landing reproducibly - a validation not
+						// done, not a verdict about the model
+						okk, why = false, "traced runs of the same tape disagree with each other (injection not reproducible): "+why
+					}
 					if !okk {
 						// the traced run could not be performed or lined up (tracer not
 						// permitted, call sequence of this Go release differs): that is a
@@ -578,6 +598,7 @@ type evidence struct {
 	unknown          int
 	samplesOK        int
 	fsSamplesOK      int
+	fsSampleRetries  int
 	fsSamplesSkipped []string
 	engineReplays    int
 }
@@ -674,6 +695,7 @@ func (e *evidence) write() error {
 			"known_findings_matched":        e.knownMatched,
 			"translator_validation_paths_replayed_ok":              e.samplesOK,
 			"translator_validation_traced_fault_or_crash_paths_ok": e.fsSamplesOK,
+			"translator_validation_traced_replays_repeated":        e.fsSampleRetries,
 			"translator_validation_traced_paths_not_performed":     append([]string{}, e.fsSamplesSkipped...),
 			"counterexamples_reexecuted_in_interpreter":            e.engineReplays,
 			"inconclusive": e.inconclusive,
